@@ -533,7 +533,7 @@ def entry_points(chk, repo):
                 need = ('tidal_heating', 'semi_major_axis_derivative', 'eccentricity_derivative', 'spin_rate_derivative')
                 if not isinstance(out, dict) or any(k_ not in out for k_ in need):
                     bad.append('the result dictionary lacks ' + str([k_ for k_ in need if not isinstance(out, dict) or k_ not in out])); continue
-                b_ = balances(out, (M, m), [C], [spin], [out['tidal_heating']], [out['spin_rate_derivative']], out['semi_major_axis_derivative'], out['eccentricity_derivative'], not obl_on)
+                b_ = balances(out, (M, m), [C], [spin], [X.lift(out['tidal_heating'])], [X.lift(out['spin_rate_derivative'])], X.lift(out['semi_major_axis_derivative']), X.lift(out['eccentricity_derivative']), not obl_on)
                 bad += [x_ + PathExplorer.label(tr_) for x_ in b_]
             lab = f'quick_tidal_dissipation (derivatives requested, obliquity tides {"on" if obl_on else "off"}{mode})'
             chk.ob('R11.9', f'{lab}: the returned heating, da/dt, de/dt and spin-rate derivative balance energy' + ('' if obl_on else ' and angular momentum'), not bad, '; '.join(bad[:2]), mq.where(fs),
@@ -555,8 +555,8 @@ def entry_points(chk, repo):
                 worlds = [k_ for k_ in ('host', 'secondary') if isinstance(out, dict) and isinstance(out.get(k_), dict)]
                 if len(worlds) != 2 or 'semi_major_axis_derivative' not in out:
                     bad.append('the result dictionary lacks the per-world results or the orbital derivatives'); continue
-                heats = [out[w_]['tidal_heating'] for w_ in worlds]; dsp = [out[w_]['spin_rate_derivative'] for w_ in worlds]
-                b_ = balances(out, Ms, list(Cs), list(sps), heats, dsp, out['semi_major_axis_derivative'], out['eccentricity_derivative'], not obl_on)
+                heats = [X.lift(out[w_]['tidal_heating']) for w_ in worlds]; dsp = [X.lift(out[w_]['spin_rate_derivative']) for w_ in worlds]
+                b_ = balances(out, Ms, list(Cs), list(sps), heats, dsp, X.lift(out['semi_major_axis_derivative']), X.lift(out['eccentricity_derivative']), not obl_on)
                 bad += [x_ + PathExplorer.label(tr_) for x_ in b_]
                 # a system total, where reported, is the sum of the two worlds' heating as reported for them
                 if 'tidal_heating' in out and not d.equal(X.lift(out['tidal_heating']), heats[0] + heats[1]):
